@@ -31,6 +31,8 @@ type caseC03 struct {
 	Passthrough int          `json:"passthrough,omitempty"`
 	// Faults, when set (replay of a shrunk failure), restricts the enumeration to one fault tuple.
 	Faults []int `json:"faults,omitempty"`
+	// PanicMode ("before" | "after"), with Faults = [i]: call i fails by panicking.
+	PanicMode string `json:"panic_mode,omitempty"`
 }
 
 func isBridgeSite(s string) bool {
@@ -165,6 +167,36 @@ func runC03(l *world.Lab, c caseC03, rec *kit.Recorder) error {
 		}
 		return nil
 	}
+	// a downstream call may also fail by PANICKING, before doing anything or after its effects are
+	// in the state branch: the receive path may then abort (the host discards everything) or
+	// return an error acknowledgement, but never report success
+	checkPanic := func(i int, after bool) error {
+		ctx, _ := base.CacheContext()
+		fs := l.BeginPanic(i, after)
+		out := world.Recv(ctx, l.Stack, p)
+		if i >= len(fs.Calls) || !fs.Calls[i].Faulted {
+			return fmt.Errorf("harness: panic fault %d was not reached (calls %v, fault-free calls %v)", i, fs.Sites(), sites)
+		}
+		when := map[bool]string{false: "before", true: "after"}[after]
+		rec.NonTrivial(kit.JSON(c.Transfer) + "|" + c.Dust + "|panic-" + when + fmt.Sprintf("|%d:%s", i, sites[i]))
+		rec.Label("fault", "panic "+when+" "+siteClass(sites[i]))
+		if out.Panicked() {
+			if _, ours := out.Panic.(world.InjectedPanic); !ours {
+				return fmt.Errorf("panic fault %s the call %d:%s: the receive path panicked with something else: %v", when, i, sites[i], out.Panic)
+			}
+			return nil // the enclosing transaction aborts, nothing is committed
+		}
+		if out.Success {
+			return fmt.Errorf("the call %d:%s PANICKED (%s completing; calls reached: %v) and the acknowledgement is a SUCCESS", i, sites[i], when, fs.Sites())
+		}
+		if !out.ErrorAck() {
+			return fmt.Errorf("panic fault at %d:%s: not an error acknowledgement: %q", i, sites[i], out.AckBytes)
+		}
+		return nil
+	}
+	if c.Faults != nil && c.PanicMode != "" {
+		return checkPanic(c.Faults[0], c.PanicMode == "after")
+	}
 	if c.Faults != nil {
 		return check(c.Faults...)
 	}
@@ -172,6 +204,14 @@ func runC03(l *world.Lab, c caseC03, rec *kit.Recorder) error {
 		if err := check(i); err != nil {
 			c.Faults = []int{i}
 			return &faultErr{err, c}
+		}
+	}
+	for i := range sites {
+		for _, after := range []bool{false, true} {
+			if err := checkPanic(i, after); err != nil {
+				c.Faults, c.PanicMode = []int{i}, map[bool]string{false: "before", true: "after"}[after]
+				return &faultErr{err, c}
+			}
 		}
 	}
 	for i := range sites {
